@@ -181,15 +181,19 @@ class ProbUGrammar(TaggedUGrammar[float, U, V, W]):
         self.sampling_map: Dict[Tuple[Type, U], List[DerivableProgram]] = {}
         self._vose_samplers_2: Dict[Tuple[Type, U], Dict[DerivableProgram, Any]] = {}
 
-        for i, S in enumerate(self.tags):
+        # every sampler gets its own seed: samplers sharing a seed share their
+        # random stream, which correlates the choices they make
+        n_samplers = 0
+        for S in self.tags:
             P_list = list(self.tags[S].keys())
             self.vose_samplers[S] = VoseSampler(
                 np.array(
                     [sum(p for p in self.tags[S][P].values()) for P in P_list],
                     dtype=float,
                 ),
-                seed=seed + i if seed else None,
+                seed=seed + n_samplers if seed else None,
             )
+            n_samplers += 1
             self._vose_samplers_2[S] = {}
             for P in P_list:
                 self._vose_samplers_2[S][P] = VoseSampler(
@@ -198,8 +202,9 @@ class ProbUGrammar(TaggedUGrammar[float, U, V, W]):
                         dtype=float,
                     )
                     / sum(p for p in self.tags[S][P].values()),
-                    seed=seed + 7 * i if seed else None,
+                    seed=seed + n_samplers if seed else None,
                 )
+                n_samplers += 1
             self.sampling_map[S] = P_list
         # same order as the weights handed to the start sampler below
         self._int2start = list(self.start_tags.keys())
@@ -208,7 +213,7 @@ class ProbUGrammar(TaggedUGrammar[float, U, V, W]):
                 [v for v in self.start_tags.values()],
                 dtype=float,
             ),
-            seed=seed + len(self.tags) if seed else None,
+            seed=seed + n_samplers if seed else None,
         )
 
     def normalise(self) -> None:
